@@ -109,4 +109,12 @@ class Driver(Device, metaclass=DriverMeta):
                     self.send_message(v.to_def_message())
 
         if isinstance(msg, message.news.NewVector):
-            self._vectors[msg.name].from_new_message(msg)
+            vector = self._vectors.get(msg.name)
+            if vector is None:
+                logger.warning(
+                    "Driver %s: new value for unknown property %s ignored",
+                    self.name,
+                    msg.name,
+                )
+                return
+            vector.from_new_message(msg)
